@@ -161,6 +161,17 @@ def finalize(eng, sp):
     eng.stats.setdefault("reached", {})
     eng.stats["reached"]["final-query"] = eng.stats["reached"].get("final-query", 0) + 1
     eng.stats["reached"]["filtered-complete-paths"] = eng.stats["reached"].get("filtered-complete-paths", 0) + len(paths)
+    # independent re-decision of the one-shot query (z3 4.8.12 binary; cvc5 as well in the thorough tier)
+    import os
+
+    bins = ("/usr/bin/z3", "/usr/bin/cvc5") if os.environ.get("VERIF_TIER") == "thorough" else ("/usr/bin/z3",)
+    second = E.second_opinion(s, timeout_s=120, binaries=bins)
+    for b, res in second.items():
+        eng.stats["reached"][f"second-solver:{os.path.basename(b)}:{res}"] = \
+            eng.stats["reached"].get(f"second-solver:{os.path.basename(b)}:{res}", 0) + 1
+        if res in ("sat", "unsat") and res != str(r) and str(r) in ("sat", "unsat"):
+            eng.violations.append(E.Violation("C08/solvers-disagree-on-the-final-query",
+                                              f"z3 {z3.get_version_string()}: {r}, {b}: {res}", {"__final__": 1}, []))
     if r == z3.unsat:
         eng.stats["proved"] += 1
         return
